@@ -477,7 +477,8 @@ class TypeVarType(AbstractType):
 
     @classmethod
     def from_dict(cls, d: dict[str, Any]) -> TypeVarType:
-        return TypeVarType(d["name"], d["upper_bound"])
+        upper_bound = d["upper_bound"]
+        return TypeVarType(d["name"], AbstractType.from_dict(upper_bound) if upper_bound is not None else None)
 
     def to_dict(self) -> dict[str, Any]:
         return {
